@@ -471,6 +471,8 @@ DISPATCH = {'priv': check_priv, 'pub': check_pub, 'nonpriv': check_nonpriv, 'scr
 
 
 def replay(ctx, case):
+    if 'probe' in case and 'kind' not in case:          # replay file written for a reproducing finding probe
+        case = dict((fid, c) for fid, c, _ in _probe_list())[case['probe']]
     DISPATCH[case['kind']](ctx, case)
 
 
@@ -492,30 +494,33 @@ def _on_curve_x(start):
     return x
 
 
-def probes(ctx):
+def _probe_list():
     from ref import ec
+    return [
+        (KF_SCALAR, {'kind': 'nonpriv', 'v': '%x' % ec.N, 'form': 'int', 'cls': 'Key', 'network': 'bitcoin',
+                     'compressed': True, 'src': 'n'},
+         'Key(n) (also n+k, 2^256-1, 32 zero bytes; int / bytes / hex / WIF forms) is accepted: the scalar is used '
+         'modulo n, Key(n) has public key 02 00..00 and an address, Key(n+1) equals Key(1)'),
+        (KF_OFFCURVE, {'kind': 'pub', 'x': _h(_off_curve_x(5)), 'y': None, 'odd': False, 'enc': 'comp',
+                       'form': 'hex', 'cls': 'Key', 'network': 'bitcoin', 'src': 'nonresidue'},
+         'Key(\'02\' + x) with x^3+7 a non-residue (also x >= p, off-curve uncompressed keys and tuples) is '
+         'accepted and yields an address nobody can spend from'),
+        (KF_COMPFLAG, {'kind': 'priv', 'd': _h(1), 'form': 'hex', 'cls': 'Key', 'network': 'bitcoin',
+                       'compressed': False, 'order': 0},
+         'a key imported/created uncompressed returns the address of the uncompressed serialisation for '
+         'address(compressed=True)'),
+        (KF_WIF01, {'kind': 'priv', 'd': _h(1), 'form': 'wif', 'cls': 'Key', 'network': 'bitcoin',
+                    'compressed': False, 'order': 0},
+         'Key(<uncompressed WIF>) of a secret whose last byte is 01 strips that byte as if it were the compression '
+         'flag: the imported secret is secret >> 8 (1 of 256 uncompressed WIFs imports as a different key)'),
+    ]
+
+
+def probes(ctx):
     saved = ctx.findings
     ctx.findings = {}
     try:
-        plist = [
-            (KF_SCALAR, {'kind': 'nonpriv', 'v': '%x' % ec.N, 'form': 'int', 'cls': 'Key', 'network': 'bitcoin',
-                         'compressed': True, 'src': 'n'},
-             'Key(n) (also n+k, 2^256-1, 32 zero bytes; int / bytes / hex / WIF forms) is accepted: the scalar is used '
-             'modulo n, Key(n) has public key 02 00..00 and an address, Key(n+1) equals Key(1)'),
-            (KF_OFFCURVE, {'kind': 'pub', 'x': _h(_off_curve_x(5)), 'y': None, 'odd': False, 'enc': 'comp',
-                           'form': 'hex', 'cls': 'Key', 'network': 'bitcoin', 'src': 'nonresidue'},
-             'Key(\'02\' + x) with x^3+7 a non-residue (also x >= p, off-curve uncompressed keys and tuples) is '
-             'accepted and yields an address nobody can spend from'),
-            (KF_COMPFLAG, {'kind': 'priv', 'd': _h(1), 'form': 'hex', 'cls': 'Key', 'network': 'bitcoin',
-                           'compressed': False, 'order': 0},
-             'a key imported/created uncompressed returns the address of the uncompressed serialisation for '
-             'address(compressed=True)'),
-            (KF_WIF01, {'kind': 'priv', 'd': _h(0x10001), 'form': 'wif', 'cls': 'Key', 'network': 'bitcoin',
-                        'compressed': False, 'order': 0},
-             'Key(<uncompressed WIF>) of a secret whose last byte is 01 strips that byte as if it were the compression '
-             'flag: the imported secret is secret >> 8 (1 of 256 uncompressed WIFs imports as a different key)'),
-        ]
-        for fid, case, what in plist:
+        for fid, case, what in _probe_list():
             try:
                 replay(ctx, case)
                 ctx.probe(fid, False, what)
